@@ -55,6 +55,7 @@ type Tree struct {
 	ListScript    map[string]string      `json:"list_script"` // "k" -> outcome of the k-th list
 	WatchMode     string                 `json:"watch_mode"`
 	HoldFirstList bool                   `json:"hold_first_list"`
+	StrayContinue bool                   `json:"stray_continue,omitempty"` // complete list replies carry a continue token nobody asked for
 	// Join (C11 only): instead of one tree, several controllers and a join built
 	// over them - shutdown does not travel sideways between independent trees
 	Join *Join `json:"join,omitempty"`
@@ -107,6 +108,14 @@ type treeRun struct {
 	apiCalls  int
 	cancelled bool // the root context was cancelled at some point (Error() then reports it)
 	failAt    int
+	crowd     []*crowdMember
+}
+
+// crowdMember: one of several subscribers that subscribed to the root at the
+// same moment, each from a goroutine of its own.
+type crowdMember struct {
+	sub kcache.Subscription
+	got int
 }
 
 func (t *treeRun) node(i int) *world.NodeRT {
@@ -170,6 +179,7 @@ func runTree(sci interface{}) {
 	}
 	srv.ListLatency = [2]time.Duration{ms(sc.ListLatMs[0]), ms(sc.ListLatMs[1])}
 	srv.WatchMode = sc.WatchMode
+	srv.StrayContinue = sc.StrayContinue
 	if sc.HoldFirstList {
 		srv.HoldFirstList = make(chan struct{})
 	}
@@ -351,6 +361,37 @@ func (t *treeRun) act(a TAct) {
 		n.CbAct = a.CbAct
 		if a.Block {
 			n.BlockHandler = make(chan struct{})
+		}
+	case "crowd":
+		// several components wire themselves up at once: Ms goroutines call
+		// Subscribe() on the root at the same moment
+		detsim.Count("probe:simultaneous-subscribes")
+		joined := make(chan struct{})
+		left := a.Ms
+		for i := 0; i < a.Ms; i++ {
+			m := &crowdMember{}
+			t.crowd = append(t.crowd, m)
+			i := i
+			go func() {
+				for y := i % 3; y > 0; y-- {
+					detsim.Yield("crowd")
+				}
+				sub, err := h.Ctrl.Subscribe()
+				if err == nil {
+					m.sub = sub
+				}
+				if left--; left == 0 {
+					close(joined)
+				}
+				if err == nil {
+					for range sub.Events() {
+						m.got++
+					}
+				}
+			}()
+		}
+		if !world.WaitClosed(joined, time.Second) {
+			detsim.Fail("hang:Subscribe", "%d simultaneous Subscribe() calls on the controller did not all return\n%s", a.Ms, dumpLive())
 		}
 	case "passerby":
 		// a short-lived plain subscriber on that publisher: it subscribes, reads,
@@ -567,7 +608,22 @@ func (t *treeRun) finalChecks() {
 	h.CheckTree("")
 	// survivors are fully functional: one more write reaches every live node
 	if !t.rootDown() && detsim.IsClosed(h.Ctrl.Ready()) && sc.WatchMode == "" {
+		var before []int
+		for _, m := range t.crowd {
+			before = append(before, m.got)
+		}
 		probe := t.srv.Apply(world.Spec{NS: "n1", Name: "a", Labels: map[string]string{"app": "a", "tier": "x", "probe": "1"}})
+		crowdCheck := func() {
+			// (after the settle below) everybody who subscribed at the same moment hears of it
+			if h.WatchLossPossible() || t.rootDown() || !h.RootPred(probe) {
+				return
+			}
+			for i, m := range t.crowd {
+				if m.sub != nil && !detsim.IsClosed(m.sub.Done()) && m.got == before[i] {
+					detsim.Fail("subscriber-deaf", "member %d of %d subscribers that called Subscribe() on the controller at the same moment got (sub, nil) but receives nothing: a later write reached the cache and its siblings, not this subscriber (%d events so far)", i, len(t.crowd), m.got)
+				}
+			}
+		}
 		if sc.PeriodMs <= 0 {
 			waitQuiet(recoveryBound, func() bool { return t.rootDown() || h.WatchLossPossible() || rootInSync(h) })
 		} else {
@@ -578,7 +634,7 @@ func (t *treeRun) finalChecks() {
 			h.CheckRootEqualsServer("survivor-not-functional")
 		}
 		h.CheckTree("survivor:")
-		_ = probe
+		crowdCheck()
 	}
 	for i := 0; i < 2000 && h.MonitorsBusy(); i++ {
 		time.Sleep(50 * time.Millisecond) // slow handlers work off their backlog
